@@ -409,7 +409,11 @@ def rule_K2(ctx) -> None:
     # from_dict maps keys back with safe_snake_case
     for q in ("Message._from_dict_init", "Message.from_pydict"):
         fn = mod.func(q)
-        if any(isinstance(n, ast.Call) and ast.unparse(n.func) == "safe_snake_case" for n in ast.walk(fn)):
+        from .c19 import reader_lookup
+        _, fbs, _, why = reader_lookup(ctx, mod, q)
+        if why:
+            ctx.inconclusive("K2", f"{q.split('.')[-1]}:keys-through-safe_snake_case", why, mod.loc(fn))
+        elif any("safe_snake_case($key)" in f for f in fbs):
             ctx.proved("K2", f"{q.split('.')[-1]}:keys-through-safe_snake_case", mod.loc(fn))
         else:
             ctx.refuted("K2", f"{q.split('.')[-1]}:keys-through-safe_snake_case", "missing", mod.loc(fn), "incoming keys are not normalised with safe_snake_case: camelCase JSON names are not mapped back to fields")
